@@ -26,10 +26,12 @@ m = {
     "version": 1,
     "setup_cmd": "sh tools/setup.sh",
     "hooks": {
-        "guard": "fc_verif",
-        "enable": "none needed: the harness is an external crate with a path dependency on /repo (no hook commits exist)",
+        "guard": "fc-verif",
+        "enable": "cargo feature `fc-verif` of futures-concurrency (off by default), switched on only by the harness build "
+                  "`stdv` (harness feature `verif`: cargo build --features cfg-std,verif); all other harness builds and the "
+                  "probes use the crate without it",
         "baseline_off_cmd": BASE,
-        "source_commits": [],
+        "source_commits": ["0c6f347"],
         "add_only": True,
     },
     "engines": [
